@@ -1,5 +1,5 @@
 import OLP.Gen.Funcs
-import OLP.Ons.Model
+import OLP.Ons.Lemmas
 
 /-!
 # C20 — what a payment buys, tied to the source by translation (T2b)
@@ -77,6 +77,70 @@ theorem expiry_exact_in_source (price base pb f q : Int)
     · rw [if_neg hc] at hm
       injection hm with hq
       refine ⟨by omega, hq.symm, by omega, by omega⟩
+
+/-- an accepted renewal price buys exactly ⌊price / perBlock⌋ blocks, in the source -/
+theorem renewal_exact_in_source (price pb f q : Int)
+    (h : Funcs.calculateRenewal price pb f = (q, false)) :
+    pb ≤ price ∧ q = price / pb ∧ 0 ≤ f ∧ f + q ≤ 9223372036854775807 := by
+  rw [calculateRenewal_is_blocksFor] at h
+  by_cases hp : price < pb
+  · simp [hp] at h
+  · rw [if_neg hp] at h
+    have hm := blocksFor_is_source price pb f
+    rw [h] at hm
+    simp only at hm
+    have hmin : minInt64 = -9223372036854775808 := rfl
+    have hmax : maxInt64 = 9223372036854775807 := rfl
+    unfold blocksFor at hm
+    by_cases hc : price / pb < minInt64 ∨ maxInt64 < price / pb ∨ f < 0 ∨ maxInt64 - f < price / pb
+    · rw [if_pos hc] at hm; cases hm
+    · rw [if_neg hc] at hm
+      injection hm with hq
+      refine ⟨by omega, hq.symm, by omega, by omega⟩
+
+/-- more money never buys fewer blocks: the source's block count is monotone in the amount (for a
+    positive price per block) -/
+theorem blocks_monotone_in_amount (a b pb f q r : Int) (hpb : 0 < pb) (hab : a ≤ b)
+    (ha : Funcs.blocksFor a pb f = (q, false)) (hb : Funcs.blocksFor b pb f = (r, false)) : q ≤ r := by
+  have h1 := blocksFor_is_source a pb f
+  have h2 := blocksFor_is_source b pb f
+  rw [ha] at h1; rw [hb] at h2
+  simp only at h1 h2
+  have e1 := (blocksFor_some h1).1
+  have e2 := (blocksFor_some h2).1
+  rw [e1, e2]
+  exact Int.ediv_le_ediv hpb hab
+
+/-! ### the domain record's own predicates and the expiry a purchase writes -/
+
+theorem changeable_is_source (d : Domain) (h : Int) :
+    changeable d h = Funcs.domainIsChangeable d.lastUpdate h := by
+  unfold changeable Funcs.domainIsChangeable
+  by_cases hc : h ≥ d.lastUpdate + 1
+  · simp [hc]
+  · simp [hc]
+
+theorem expiredAt_is_source (d : Domain) (h : Int) :
+    expiredAt d h = Funcs.domainIsExpired d.expire h := rfl
+
+/-- the integer and boolean fields `ResetAfterSale` writes are the model's: the new expiry is the
+    later of the old expiry and the current height, plus the blocks bought -/
+theorem resetAfterSale_is_source (d : Domain) (buyer account : Addr) (n cur : Int) (sp : Int) :
+    let r := resetAfterSale d buyer account n cur
+    Funcs.domainResetAfterSale d.lastUpdate d.expire d.active d.onSale sp n cur =
+      (r.active, r.expire, r.lastUpdate, r.onSale) := by
+  unfold resetAfterSale Funcs.domainResetAfterSale
+  by_cases hc : d.expire > cur
+  · simp [hc]
+  · simp [hc]
+
+/-- a purchase never shortens the time a name is held: the new expiry is at least the old one
+    plus the blocks bought, and at least the current height plus the blocks bought -/
+theorem purchase_expiry_lower_bounds (lu ex : Int) (a o : Bool) (sp n cur : Int) :
+    (Funcs.domainResetAfterSale lu ex a o sp n cur).2.1 ≥ ex + n ∧
+    (Funcs.domainResetAfterSale lu ex a o sp n cur).2.1 ≥ cur + n := by
+  unfold Funcs.domainResetAfterSale
+  by_cases hc : ex > cur <;> simp [hc] <;> omega
 
 example : Funcs.calculateExpiry 1500 500 10 7 = (100, false) := by decide
 example : Funcs.calculateExpiry 400 500 10 7 = (0, true) := by decide
